@@ -34,8 +34,9 @@ Proof. intros Hf [t [H E]]. exists t. split; [apply parses_alt_r; assumption|exa
 Lemma yields_map l e s v r : yields e s v r -> yields (Map l e) s (apply_label l v) r.
 Proof. intros [t [H E]]. exists (TMap l t). split; [apply parses_map; exact H|cbn [eval_tree]; rewrite E; reflexivity]. Qed.
 
-Lemma yields_map' l e s v w r : yields e s v r -> apply_label l v = w -> yields (Map l e) s w r.
-Proof. intros H <-. apply yields_map. exact H. Qed.
+(** [v] is given explicitly so that the label can be computed first *)
+Lemma yields_map' v l e s w r : apply_label l v = w -> yields e s v r -> yields (Map l e) s w r.
+Proof. intros <- H. apply yields_map. exact H. Qed.
 
 Lemma yields_seq a b s va r1 vb r2 : yields a s va r1 -> yields b r1 vb r2 -> yields (Seq a b) s (VPair va vb) r2.
 Proof.
@@ -162,10 +163,9 @@ Proof.
   destruct n as [|c n]; [intros []|]. intros [Hc Hn] Hr. apply parses_nt. rewrite body_ncname.
   destruct (span_split (eval (is_name_start_char_except [58])) n) as [n1 [n2 [-> [H1 H2]]]].
   apply parses_recognize with (t := TPair (TStr (c :: n1)) (TStr n2)).
-  change ((c :: n1 ++ n2) ++ r) with ((c :: n1) ++ n2 ++ r) at 1.
   replace ((c :: n1 ++ n2) ++ r) with ((c :: n1) ++ n2 ++ r) by (cbn [app]; rewrite app_assoc; reflexivity).
   eapply parses_seq.
-  - apply parses_chars1; [discriminate|cbn [forallb]; rewrite Hc, H1; reflexivity|].
+  - apply parses_chars1; [discriminate|apply andb_true_intro; split; [exact Hc|exact H1]|].
     apply stops_app; [|intros _; exact H2].
     eapply stops_weaken; [apply name_start_except_colon|exact Hr].
   - apply parses_chars0; [|exact Hr]. eapply forallb_app_r. exact Hn.
@@ -204,9 +204,9 @@ Proof.
   assert (stops (eval (is_name_char_except [58])) r) as Hr' by (eapply stops_weaken; [apply name_char_except_colon|exact Hr]).
   apply parses_nt. rewrite body_qname. destruct q as [p l|n]; cbn [d_qname tree_qname qname_ok] in *.
   - destruct Hq as [Hp Hl]. apply parses_alt_l. apply parses_map. apply parses_nt. rewrite body_prefixed_name.
-    apply parses_map. rewrite <- app_assoc. eapply parses_seq.
+    apply parses_map. rewrite <- app_assoc. cbn [app]. eapply parses_seq.
     + apply parses_ncname; [exact Hp|apply stops_colon_except].
-    + change (58 :: l ++ r) with ([58] ++ l ++ r). eapply parses_seqr; [apply parses_tag|].
+    + eapply parses_seqr; [apply parses_tag_lit; reflexivity|].
       apply parses_ncname; assumption.
   - apply parses_alt_r.
     + apply fails_map. apply fails_nt. rewrite body_prefixed_name. apply fails_map.
@@ -268,38 +268,31 @@ Definition d_reference (x : reference) : str :=
 Lemma stops_semicolon p (r : str) : eval p 59 = false -> stops (eval p) (59 :: r).
 Proof. intros H. exact H. Qed.
 
+Ltac tag := apply parses_tag_lit; reflexivity.
+
 Theorem yields_reference (x : reference) (r : str) : reference_ok x ->
   yields (NT nt_reference) (d_reference x ++ r) (VReference x) r.
 Proof.
-  intros Hx. apply yields_nt. rewrite body_reference. destruct x as [num [|]|n]; cbn [reference_ok d_reference] in *.
-  - (* decimal *) destruct Hx as [Hne Hd]. apply yields_alt_r.
+  intros Hx. apply yields_nt. rewrite body_reference. destruct x as [num [|]|n]; cbn [reference_ok d_reference app] in *.
+  - (* decimal *) destruct Hx as [Hne Hd]. rewrite <- app_assoc. apply yields_alt_r.
     + apply fails_nt. rewrite body_entity_ref. apply fails_map.
-      change ((38 :: 35 :: num ++ [59]) ++ r) with ([38] ++ ([] ++ 35 :: (num ++ [59]) ++ r)).
-      eapply fails_seqr_r; [apply parses_tag|]. eapply fails_seql_r; [apply parses_name; [reflexivity|reflexivity]|].
+      eapply fails_seqr_r; [tag|]. eapply fails_seql_r; [apply (parses_name [] (35 :: num ++ [59] ++ r)); reflexivity|].
       apply fails_tag. reflexivity.
     + apply yields_nt. rewrite body_char_ref. apply yields_alt_l.
-      eapply yields_map'; [|reflexivity].
-      change ((38 :: 35 :: num ++ [59]) ++ r) with ([38;35] ++ (num ++ [59]) ++ r). rewrite <- app_assoc.
-      eapply yields_seqr; [apply parses_tag|]. eapply yields_seql.
-      * apply yields_str. apply parses_chars1; [exact Hne|exact Hd|reflexivity].
-      * apply (parses_tag G_xml [59] r).
-  - (* hexadecimal *) destruct Hx as [Hne Hd]. apply yields_alt_r.
+      apply (yields_map' (VStr num)); [reflexivity|].
+      eapply yields_seqr; [tag|].
+      eapply yields_seql; [apply yields_str; apply parses_chars1; [exact Hne|exact Hd|reflexivity]|tag].
+  - (* hexadecimal *) destruct Hx as [Hne Hd]. rewrite <- app_assoc. apply yields_alt_r.
     + apply fails_nt. rewrite body_entity_ref. apply fails_map.
-      change ((38 :: 35 :: 120 :: num ++ [59]) ++ r) with ([38] ++ ([] ++ 35 :: 120 :: (num ++ [59]) ++ r)).
-      eapply fails_seqr_r; [apply parses_tag|]. eapply fails_seql_r; [apply parses_name; [reflexivity|reflexivity]|].
+      eapply fails_seqr_r; [tag|]. eapply fails_seql_r; [apply (parses_name [] (35 :: 120 :: num ++ [59] ++ r)); reflexivity|].
       apply fails_tag. reflexivity.
     + apply yields_nt. rewrite body_char_ref. apply yields_alt_r.
-      * apply fails_map. change ((38 :: 35 :: 120 :: num ++ [59]) ++ r) with ([38;35] ++ 120 :: (num ++ [59]) ++ r).
-        eapply fails_seqr_r; [apply parses_tag|]. apply fails_seql_l. apply fails_chars1. reflexivity.
-      * eapply yields_map'; [|reflexivity].
-        change ((38 :: 35 :: 120 :: num ++ [59]) ++ r) with ([38;35;120] ++ (num ++ [59]) ++ r). rewrite <- app_assoc.
-        eapply yields_seqr; [apply parses_tag|]. eapply yields_seql.
-        -- apply yields_str. apply parses_chars1; [exact Hne|exact Hd|reflexivity].
-        -- apply (parses_tag G_xml [59] r).
-  - (* entity *) apply yields_alt_l. apply yields_nt. rewrite body_entity_ref.
-    eapply yields_map'; [|reflexivity].
-    change ((38 :: n ++ [59]) ++ r) with ([38] ++ (n ++ [59]) ++ r). rewrite <- app_assoc.
-    eapply yields_seqr; [apply parses_tag|]. eapply yields_seql.
-    + apply yields_str. apply parses_name; [exact Hx|reflexivity].
-    + apply (parses_tag G_xml [59] r).
+      * apply fails_map. eapply fails_seqr_r; [tag|]. apply fails_seql_l. apply fails_chars1. reflexivity.
+      * apply (yields_map' (VStr num)); [reflexivity|].
+        eapply yields_seqr; [tag|].
+        eapply yields_seql; [apply yields_str; apply parses_chars1; [exact Hne|exact Hd|reflexivity]|tag].
+  - (* entity *) rewrite <- app_assoc. apply yields_alt_l. apply yields_nt. rewrite body_entity_ref.
+    apply (yields_map' (VStr n)); [reflexivity|].
+    eapply yields_seqr; [tag|].
+    eapply yields_seql; [apply yields_str; apply parses_name; [exact Hx|reflexivity]|tag].
 Qed.
